@@ -202,6 +202,28 @@ impl<'a> Parser<'a> {
     }
 }
 
+#[cfg(log4rs_verif)]
+impl<'a> Parser<'a> {
+    /// Runs the private `parameters()` on `spec` (what follows a formatter's name and
+    /// arguments, from the ':' on).  Returns its result (the error text is dropped to `()`)
+    /// and the byte offset of the first character it did not consume.
+    pub fn verif_parameters(spec: &'a str) -> (Result<Parameters, ()>, usize) {
+        let mut p = Parser::new(spec);
+        let res = match p.parameters() {
+            Ok(params) => Ok(params),
+            Err(msg) => {
+                std::mem::forget(msg);
+                Err(())
+            }
+        };
+        let rest = match p.it.peek() {
+            Some(&(pos, _)) => pos,
+            None => spec.len(),
+        };
+        (res, rest)
+    }
+}
+
 impl<'a> Iterator for Parser<'a> {
     type Item = Piece<'a>;
 
